@@ -7,6 +7,26 @@ Emit == GenDone => PrintT(ToJson([m |-> "PongoApi", toks |-> form]))
 \* value universe, every registered filter on every name with every name (and a few literals) as parameter, every name
 \* as the operand of the looping / membership / indexing constructs
 CONSTANTS CrossFamily
+RecursionRoutes == <<
+  "{% macro cb(n) %}.{% include \"/callback\" %}{% endmacro %}{{ cb(1) }}",
+  "{% macro cb(n) %}.{% ssi \"/callback\" parsed %}{% endmacro %}{{ cb(1) }}",
+  "{% macro cb(n) %}.{% include \"/call\"|add:\"back\" %}{% endmacro %}{{ cb(1) }}",
+  "{% import \"/cblib\" cb %}{{ cb(1) }}",
+  "{% import \"/cblib\" cb as z, cb %}{{ z(1) }}",
+  "{% import \"/cblib\" cb as z %}{{ z(1) }}",
+  "{% import \"/cblibssi\" cb %}{{ cb(1) }}",
+  "{% macro cb(n) %}{% with q=cb(n) %}{{ q }}{% endwith %}{% endmacro %}{{ cb(1) }}",
+  "{% macro cb(n) %}{% filter upper %}{{ cb(n) }}{% endfilter %}{% endmacro %}{{ cb(1) }}",
+  "{% macro cb(n) %}{% for i in \"ab\" %}{{ cb(i) }}{% endfor %}{% endmacro %}{{ cb(1) }}",
+  "{% macro cb(n) %}{% include \"/callback\" with n=cb %}{% endmacro %}{{ cb(1) }}",
+  "{% macro cb(n) %}{% include \"/callback\" only %}{% endmacro %}{{ cb(1) }}",
+  "{% macro cb(n) %}{% include \"/callback\" with cb=cb only %}{% endmacro %}{{ cb(1) }}",
+  "{% macro a(n) %}{{ b(n) }}{% endmacro %}{% macro b(n) %}{% include \"/callback2\" %}{% endmacro %}{{ a(1) }}",
+  "{% macro cb(n) %}{% set r = cb(n) %}{% endmacro %}{% block b %}{{ cb(1) }}{% endblock %}",
+  "{% extends \"/cbbase\" %}{% block b %}{% macro cb(n) %}{% include \"/callback\" %}{% endmacro %}{{ cb(1) }}{% endblock %}",
+  "{% macro cb(n) %}{% include \"/callbackinc\" %}{% endmacro %}{{ cb(1) }}",
+  "{% for i in \"ab\" %}{% macro cb(n) %}{% include \"/callback\" %}{% endmacro %}{{ cb(i) }}{% endfor %}",
+  "{% macro cb(n=cb2()) %}x{% endmacro %}{% macro cb2(n) %}{% include \"/callback\" %}{% endmacro %}{{ cb() }}" >>
 Lits == {"0", "1", "\"a\"", "\"0:1\"", "nope", "-1", "99999999999", "1.5", "0.5", "0.0", "\"0.5\""}
 CrossInit ==
   /\ ApiInit /\ steps = 0
@@ -24,6 +44,10 @@ CrossInit ==
                         [] k = 6 -> <<"{% widthratio ", a, " ", b, " 100 %}{% cycle ", a, " ", b, " %}{% with z=", a, " %}{{ z|length }}{% endwith %}">>
                         [] k = 7 -> <<"{% include ", a, " %}">>
                         [] k = 8 -> <<"{% filter ", "join:", b, "|slice:", b, " %}{{ ", a, " }}{% endfilter %}{{ [", a, ", ", b, "]|join:", b, " }}">>)
+       [] CrossFamily = "recursion" ->
+            \* every way a macro reaches itself again without a base case: directly, through a template it includes (which sees the
+            \* includer's names, the macro among them), through ssi, an import, a block; the files are in the harness (apiFiles)
+            (\E k \in 1..Len(RecursionRoutes) : form = <<RecursionRoutes[k]>>)
 \* (family "names") every construct that binds a name x every name the engine or another construct binds or reads x every construct
 \* that reads or rebinds it afterwards, inside the binder's scope
 BindNames == {"forloop", "block", "a", "i", "m", "lm", "true", "x", "nope"}
